@@ -1,7 +1,7 @@
 (* C17 property theorems: ONLY statements closed by `exact`, each followed by Print Assumptions. *)
 From Coq Require Import ZArith Reals List Bool.
 From Flocq Require Import Core BinarySingleNaN.
-From DuneV Require Import C17_Model C17_Spec C17_Spec_Round C17_Proofs C17_Proofs_Cmp C17_Proofs_Int C17_Proofs_BinFix C17_Proofs_Round.
+From DuneV Require Import C17_Model C17_Spec C17_Spec_Round C17_Proofs C17_Proofs_Cmp C17_Proofs_Int C17_Proofs_BinFix C17_Proofs_Round C17_Defaults C17_Proofs_Api.
 Import ListNotations.
 
 (* ---- comparison algebra: every IEEE binary format (prec, emax), every style, all finite a b, every finite eps >= 0;
@@ -242,3 +242,53 @@ Example C17_trunc_round_witnesses :
   c17_round 53 1024 c17_Hprec64 c17_Hmax64 C17_TowardZero (C17_Ity false 32) C17_RelWeak (c17_ex_f64 0x3cb0000000000000) (c17_ex_f64 0xbfb5c28f5c28f5c3) = C17_Val 4294967295%Z /\
   c17_round_fix 53 1024 c17_Hprec64 c17_Hmax64 C17_TowardZero (C17_Ity false 32) C17_RelWeak (c17_ex_f64 0x3cb0000000000000) (c17_ex_f64 0xbfb5c28f5c28f5c3) = C17_Val 0%Z.
 Proof. exact C17_trunc_round_witnesses_lemma. Qed.
+
+(* ---- API audit: ordering comparisons on std::vector / FieldVector<T,1> (lexicographic exact order, tolerant eq), every format ---- *)
+Theorem C17_vector_order :
+  forall (prec emax : Z) (Hp : Prec_gt_0 prec) (Hm : Prec_lt_emax prec emax)
+         (s : c17_cstyle) (eps : binary_float prec emax) (a b : list (binary_float prec emax)),
+  let VEQ := c17_veq prec emax Hp Hm s eps in
+  let VNE := c17_vne prec emax Hp Hm s eps in
+  let VGT := c17_vgt prec emax Hp Hm s eps in
+  let VLT := c17_vlt prec emax Hp Hm s eps in
+  let VGE := c17_vge prec emax Hp Hm s eps in
+  let VLE := c17_vle prec emax Hp Hm s eps in
+  VNE a b = negb (VEQ a b) /\ VGE a b = (VGT a b || VEQ a b) /\ VLE a b = (VLT a b || VEQ a b) /\
+  VLT a b && VGT a b = false /\ (VEQ a b = true -> VLT a b = false /\ VGT a b = false) /\
+  (Forall (fun x => is_finite x = true) a -> Forall (fun x => is_finite x = true) b ->
+   VEQ a b = VEQ b a /\ VGT a b = VLT b a /\ VGE a b = VLE b a).
+Proof. exact C17_vector_order_lemma. Qed.
+Print Assumptions C17_vector_order.
+
+(* ---- DefaultEpsilon<T,style>::value() (literals and default styles re-read from float_cmp.hh/.cc into Params_gen.v on every run):
+        finite, non-negative, the documented values, for float and double ---- *)
+Theorem C17_default_eps :
+  (forall s, is_finite (c17_deps32 s) = true /\ Bsign (c17_deps32 s) = false) /\
+  (forall s, is_finite (c17_deps64 s) = true /\ Bsign (c17_deps64 s) = false) /\
+  c17_to_bits 24 128 32 (c17_deps32 C17_RelWeak) = 0x35800000%Z /\
+  c17_to_bits 24 128 32 (c17_deps32 C17_RelStrong) = 0x35800000%Z /\
+  c17_to_bits 24 128 32 (c17_deps32 C17_Absolute) = 0x358637bd%Z /\
+  c17_to_bits 53 1024 64 (c17_deps64 C17_RelWeak) = 0x3ce0000000000000%Z /\
+  c17_to_bits 53 1024 64 (c17_deps64 C17_RelStrong) = 0x3ce0000000000000%Z /\
+  c17_to_bits 53 1024 64 (c17_deps64 C17_Absolute) = 0x3eb0c6f7a0b5ed8d%Z /\
+  c17_default_cstyle = C17_RelWeak /\ c17_default_rstyle = C17_TowardZero.
+Proof. exact C17_default_eps_lemma. Qed.
+Print Assumptions C17_default_eps.
+
+(* hence the comparison algebra for the overloads that default the epsilon (float and double, every style, all finite a b) *)
+Theorem C17_cmp_algebra_default_eps :
+  (forall (s : c17_cstyle) (a b : binary_float 24 128), is_finite a = true -> is_finite b = true ->
+     let e := c17_deps32 s in
+     c17_cmp_laws (c17_flt 24 128 a b) (c17_fgt 24 128 a b)
+       (c17_eq 24 128 c17_Hprec32 c17_Hmax32 s e a b) (c17_ne 24 128 c17_Hprec32 c17_Hmax32 s e a b)
+       (c17_gt 24 128 c17_Hprec32 c17_Hmax32 s e a b) (c17_lt 24 128 c17_Hprec32 c17_Hmax32 s e a b)
+       (c17_ge 24 128 c17_Hprec32 c17_Hmax32 s e a b) (c17_le 24 128 c17_Hprec32 c17_Hmax32 s e a b) = true) /\
+  (forall (s : c17_cstyle) (a b : binary_float 53 1024), is_finite a = true -> is_finite b = true ->
+     let e := c17_deps64 s in
+     c17_cmp_laws (c17_flt 53 1024 a b) (c17_fgt 53 1024 a b)
+       (c17_eq 53 1024 c17_Hprec64 c17_Hmax64 s e a b) (c17_ne 53 1024 c17_Hprec64 c17_Hmax64 s e a b)
+       (c17_gt 53 1024 c17_Hprec64 c17_Hmax64 s e a b) (c17_lt 53 1024 c17_Hprec64 c17_Hmax64 s e a b)
+       (c17_ge 53 1024 c17_Hprec64 c17_Hmax64 s e a b) (c17_le 53 1024 c17_Hprec64 c17_Hmax64 s e a b) = true).
+Proof. exact C17_cmp_algebra_default_eps_lemma. Qed.
+Print Assumptions C17_cmp_algebra_default_eps.
+
